@@ -41,7 +41,8 @@ HAND_FILES = ["Props/C21_ind.v", "Props/C21_model.v", "Props/C21_formsum.v"]
 # replace is a substitution: after normalisation both sides are usually syntactically equal; the derivation laws
 # (Ltac of py/C03_coq.py) are only needed when a constant image ended up under a derivative
 TACTIC = ("norm_goal; first [ reflexivity | ring | repeat unify1; first [ reflexivity | ring ] "
-          "| dx_push; cbv [dfn sign_ erf_c]; norm_goal; cplx_zero; cond_zero; rewrite ?cond_same; "
+          "| repeat first [ unify1 | unify_b ]; first [ reflexivity | ring ] "
+          "| dx_push; cbv [dfn sign_ erf_c]; norm_goal; rewrite ?conj_z0, ?re_z0, ?im_z0; cplx_zero; cond_zero; rewrite ?cond_same; "
           "first [ fin | repeat unify1; fin | rewrite ?div_def; repeat first [ unify1 | unify_b ]; fin ] ]")
 
 MAX_NODES = 60
@@ -314,7 +315,8 @@ def build_forms(rng, quick):
         attempts += 1
         sub = random.Random(rng.randrange(10**9))
         cell = sub.choice(["interval", "triangle", "tetrahedron"])
-        g = C03_gen.Gen(sub, cell, max_leaves=5)
+        algebraic = sub.random() < 0.6      # literal images only around ring operations (see gen_case)
+        g = C03_gen.Gen(sub, cell, max_leaves=5, allow=ALGEBRAIC if algebraic else None)
         dx, ds, dS = (ufl.Measure(t, domain=g.mesh) for t in ("dx", "ds", "dS"))
         try:
             terms = []
@@ -340,7 +342,7 @@ def build_forms(rng, quick):
             chosen = [t for t in keys if sub.random() < 0.5] or [sub.choice(keys)]
         mapping, kinds = {}, []
         for t in chosen:
-            img, what = image_for(t, g, sub, keys, True)
+            img, what = image_for(t, g, sub, keys, algebraic)
             mapping[t] = img
             kinds.append(what)
         if sub.random() < 0.3:
